@@ -481,3 +481,8 @@ mod test {
         }
     }
 }
+
+#[cfg(kani)]
+mod verif_kani {
+    include!(concat!(env!("IPA_VERIF_DIR"), "/kani/send.rs"));
+}
